@@ -12,6 +12,7 @@ import EnrVerif.Props.C06
 import EnrVerif.Props.C07
 import EnrVerif.Props.C08
 import EnrVerif.Props.C08Monitor
+import EnrVerif.Props.C08BuildMonitor
 import EnrVerif.Props.C08NonVacuity
 import EnrVerif.Props.C09
 import EnrVerif.Props.C10
